@@ -231,6 +231,127 @@ def nla_site_model(ctx):
     return ctx._nla_site_model
 
 
+def chic_site_model(ctx):
+    """CHICFragment.identify_site run by the abstract interpreter on model fragments: both strands x soft clip at the read start (0 / 3) x cigar processing on / off x
+    layout (no MX tag / MX = scCHIC... / another MX) x invert_strand x mate (none / unmapped / inward / same orientation / outward).  Required: R1 unmapped and mates that do
+    not point inwards are rejected without a site; otherwise one site is recorded at the clip-corrected read start -2 / +1 (trimmed layout) or -1 / 0 (untrimmed), on the
+    read strand (inverted iff invert_strand).  (ok, cases, witness) or None outside the interpreted subset.  Cached per run."""
+    if hasattr(ctx, '_chic_site_model'):
+        return ctx._chic_site_model
+    from ..consteval import module_scope, Evaluator, Instance, Unfoldable, Raised
+    ctx._chic_site_model = None
+    n = 0
+    try:
+        env = module_scope(ctx.ix, FRAG_CHIC)
+        cls = env['CHICFragment']
+        for rev, clip, noumi, mx, inv, mate, r1_unmapped in itertools.product((False, True), (0, 3), (False, True), (None, 'scCHIC384C8U3', 'NLAIII384C8U3'), (False, True),
+                                                                             (None, 'unmapped', 'inward', 'same', 'outward'), (False, True)):
+            if r1_unmapped and (clip or mx or mate not in (None, 'inward')):
+                continue
+            n += 1
+            cig = ([(4, clip)] if clip and not rev else []) + [(0, 50)] + ([(4, clip)] if clip and rev else [])
+            r1 = Instance(attrs={'is_unmapped': r1_unmapped, 'is_reverse': rev, 'reference_start': 100, 'reference_end': 150, 'reference_name': 'chr1', 'cigartuples': cig, 'tags': {'MX': mx} if mx else {},
+                                 'is_read1': True, 'is_read2': False, 'is_qcfail': False})
+            r2 = None
+            if mate is not None:
+                m_rev = {'inward': not rev, 'same': rev, 'outward': not rev, 'unmapped': False}[mate]
+                start = {'inward': 200 if not rev else 20, 'outward': 20 if not rev else 200}.get(mate, 120)
+                r2 = Instance(attrs={'is_unmapped': mate == 'unmapped', 'is_reverse': m_rev, 'reference_start': start, 'reference_end': start + 50, 'reference_name': 'chr1', 'cigartuples': [(0, 50)], 'tags': {},
+                                     'is_read1': False, 'is_read2': True, 'is_qcfail': False})
+            frag = Instance(cls, attrs={'reads': [r1, r2], 'no_umi_cigar_processing': noumi, 'invert_strand': inv, 'found_valid_site': False, 'site_location': None, 'single_end': mate is None,
+                                        'qcfail': False, 'max_fragment_size': None, 'assignment_radius': 0})
+            calls = []
+
+            def hook(ev, call, env_, calls=calls):
+                d = dotted(call.func) or ''
+                if d in ('self.set_site', 'self.set_rejection_reason', 'self.set_recognized_sequence', 'self.set_meta'):
+                    calls.append((d[5:], [ev.ev(x, env_) for x in call.args], {k_.arg: ev.ev(k_.value, env_) for k_ in call.keywords}))
+                    return None
+                if isinstance(call.func, ast.Attribute) and call.func.attr in ('has_tag', 'get_tag'):
+                    recv = ev.ev(call.func.value, env_)
+                    if isinstance(recv, Instance) and 'tags' in recv.attrs:
+                        a = [ev.ev(x, env_) for x in call.args]
+                        if call.func.attr == 'has_tag':
+                            return a[0] in recv.attrs['tags']
+                        if a[0] not in recv.attrs['tags']:
+                            raise Raised('KeyError', a[0])
+                        return recv.attrs['tags'][a[0]]
+                return NotImplemented
+            e = dict(env)
+            e['frag'] = frag
+            e['R1'] = r1
+            ret = Evaluator(e, budget=200000, call_hook=hook).ev(ast.parse('frag.identify_site()', mode='eval').body, e)
+            sites = [c for c in calls if c[0] == 'set_site']
+            rejects = [c for c in calls if c[0] == 'set_rejection_reason']
+            case = {'reverse': rev, 'soft clip at the read start': clip, 'no_umi_cigar_processing': noumi, 'MX': mx, 'invert_strand': inv, 'mate': mate, 'R1 unmapped': r1_unmapped}
+            # pairs that point at each other are accepted whatever their coordinates (an outward pair has the same flags as an inward one)
+            must_reject = r1_unmapped or mate == 'same'
+            if must_reject:
+                if sites or not rejects:
+                    ctx._chic_site_model = (False, n, dict(case, problem=f'a fragment that has to be rejected records {len(sites)} site(s) and {len(rejects)} rejection reason(s)'))
+                    return ctx._chic_site_model
+                continue
+            if len(sites) != 1 or rejects:
+                ctx._chic_site_model = (False, n, dict(case, problem=f'set_site called {len(sites)} times, {len(rejects)} rejection(s)'))
+                return ctx._chic_site_model
+            kw = dict(sites[0][2])
+            for name_, val_ in zip(('site_chrom', 'site_pos', 'site_strand', 'is_trimmed'), sites[0][1]):
+                kw[name_] = val_
+            trimmed = bool(mx) and mx.startswith('scCHIC')
+            anchor_ = (150 + (clip if not noumi else 0)) if rev else (100 - (clip if not noumi else 0))
+            want = anchor_ + ((1 if rev else -2) if trimmed else (0 if rev else -1))
+            if kw.get('site_pos') != want or kw.get('site_strand') != (rev != inv) or kw.get('site_chrom') != 'chr1' or bool(kw.get('is_trimmed')) != trimmed:
+                ctx._chic_site_model = (False, n, dict(case, problem=f'site recorded at {kw.get("site_pos")} on strand {kw.get("site_strand")} (is_trimmed={kw.get("is_trimmed")}), expected {want} on strand {rev != inv} '
+                                                                    f'(clip-corrected read start {anchor_}, is_trimmed={trimmed})'))
+                return ctx._chic_site_model
+    except (Unfoldable, Raised, Exception) as e_:
+        ctx._chic_site_model_error = f'{type(e_).__name__}: {str(e_)[:100]}'
+        return None
+    ctx._chic_site_model = (True, n, None)
+    return ctx._chic_site_model
+
+
+def _chic_model_or_symbolic(ctx, rid, symbolic):
+    """as _nla_model_or_symbolic, for the scCHIC obligations"""
+    from ..core import Ctx, VIOLATED, UNDECIDED
+    sub = Ctx(ctx.ix, 'C09', ctx.tier)
+    err = None
+    try:
+        symbolic(sub)
+    except AnalysisError as e_:
+        err = e_
+    except Exception as e_:
+        err = AnalysisError(f'symbolic reading failed ({type(e_).__name__}: {e_})')
+    for k_, v_ in sub.counters.items():
+        ctx.counters[k_] = (ctx.counters.get(k_, set()) | v_) if isinstance(v_, set) else ctx.counters.get(k_, 0) + v_
+    for k_, v_ in getattr(sub, 'exhaustive', {}).items():
+        ctx.exhaustive[k_] = v_
+    ctx.notes.extend(getattr(sub, 'notes', []))
+    open_ = [o for o in sub.obligations if o.status in (VIOLATED, UNDECIDED) and 'scCHIC' in o.construct]
+    if err is None and not open_:
+        ctx.obligations.extend(sub.obligations)
+        return
+    m = chic_site_model(ctx)
+    if m is None:
+        ctx.obligations.extend(sub.obligations)
+        if err is not None:
+            raise err
+        return
+    ok, n, wit = m
+    f = ctx.fn(FRAG_CHIC, 'CHICFragment.identify_site')
+    ctx.counters['interpreted_cases'] = ctx.counters.get('interpreted_cases', 0) + n
+    if ok:
+        ctx.obligations.extend([o for o in sub.obligations if o not in open_])
+        ctx.emit(rid, True, FRAG_CHIC, f, f'scCHIC identify_site interpreted on {n} model fragments (strand x soft clip x cigar processing x layout tag x invert_strand x mate): the recorded site is the clip-corrected read '
+                 f'start -2 / +1 (trimmed) or -1 / 0 (untrimmed) on the read strand, misoriented pairs are rejected (the symbolic reading did not follow {len(open_)} construct(s) of the restructured method)',
+                 key='scCHIC:site-model')
+    else:
+        ctx.obligations.extend(sub.obligations)
+        ctx.emit(rid, False, FRAG_CHIC, f, f'scCHIC identify_site on a model fragment: {wit.get("problem")} - {({k_: v_ for k_, v_ in wit.items() if k_ != "problem"})}', key='scCHIC:site-model', witness=wit,
+                 what='scCHIC identify_site: ' + str(wit.get('problem')))
+
+
+
 def _nla_model_or_symbolic(ctx, rid, symbolic):
     """the symbolic reading of identify_site decides; where it cannot follow a restructured method (site offsets that are not constants to it, anchors not found) the
     interpreted model of the method decides the NlaIII obligations instead"""
@@ -302,7 +423,7 @@ def _r1_symbolic(ctx):
 
 @rule('C09', 'C09-R2', 'mirror symmetry: for every arm the reverse offset equals -w - forward offset (w = 4 for the CATG 4-mer, 1 for the MNase base)')
 def r2(ctx):
-    _nla_model_or_symbolic(ctx, 'C09-R2', _r2_symbolic)
+    _nla_model_or_symbolic(ctx, 'C09-R2', lambda sub: _chic_model_or_symbolic(sub, 'C09-R2', _r2_symbolic))
 
 
 def _r2_symbolic(ctx):
@@ -418,6 +539,10 @@ def _r3_symbolic(ctx):
 @rule('C09', 'C09-R4', 'scCHIC: the site is the base adjacent to the ligated overhang: trimmed layout anchor -2 / +1, untrimmed -1 / 0 '
                        '(forward / reverse), independent of invert_strand; only the reported strand is inverted')
 def r4(ctx):
+    _chic_model_or_symbolic(ctx, 'C09-R4', _r4_symbolic)
+
+
+def _r4_symbolic(ctx):
     space = [('REV', (False, True)), ('NOUMI', (False, True)), ('HEADCLIP', (False, True)), ('TAILCLIP', (False, True)), ('TRIM', (False, True)), ('INV', (False, True))]
     f, res = run_protocol(ctx, FRAG_CHIC, 'CHICFragment', {'is_trimmed': 'TRIM', 'self.invert_strand': 'INV', 'self.has_R2()': False}, space)
     ctx.need('C09-R4', len(res), 64, 'set_site events on CHIC paths')
